@@ -125,6 +125,7 @@ func str(m map[string]any, k string) string {
 
 // gwWorld executes steps of S3Gw behaviours against real gateway process(es).
 type gwWorld struct {
+	stateOps map[string]bool // when set: the state is compared only after these operations and after the last step
 	c        *core.Ctx
 	prop     string
 	env      *Env
@@ -808,7 +809,8 @@ func (w *gwWorld) replayBehaviour(idx int, b gwBehaviour, symBuckets, symKeys []
 			report(d, "reply")
 			diverged = true
 		}
-		if checkState {
+		last := i == len(b.Tr)-1 || b.Tr[i+1].Op == "End"
+		if checkState && (w.stateOps == nil || w.stateOps[s.Op] || last) {
 			for _, d := range w.CompareState(s.Post, symBuckets, symKeys) {
 				report(d, "state")
 				diverged = true
